@@ -9,6 +9,8 @@ import (
 	"github.com/PurpleSec/logx"
 	"github.com/iDigitalFlame/xmt/c2/cfg"
 	"github.com/iDigitalFlame/xmt/c2/cout"
+	"github.com/iDigitalFlame/xmt/c2/task"
+	"github.com/iDigitalFlame/xmt/com"
 	"github.com/iDigitalFlame/xmt/data"
 	"github.com/iDigitalFlame/xmt/util"
 )
@@ -159,4 +161,24 @@ func VerifC19SyncInfo(sleep time.Duration, jitter uint8, kill time.Time, work *c
 // infoSync block what LoadContext does for a spawned client (job id 0).
 func VerifC19ConnectInner(x context.Context, r data.Reader, l logx.Log, p cfg.Profile) (*Session, error) {
 	return connectContextInner(x, r, l, p)
+}
+
+// VerifC19MvTimeKill feeds the client-side handler of a runtime kill-date update
+// (muxHandleInternal, MvTime / timeKillDate, value = Unix seconds, 0 = clear) and returns the
+// kill date the Session stores afterwards.
+func VerifC19MvTimeKill(s *Session, u int64) (time.Time, error) {
+	n := &com.Packet{ID: task.MvTime, Device: s.ID}
+	n.WriteUint8(timeKillDate)
+	n.WriteInt64(u)
+	var w data.Chunk
+	err := muxHandleInternal(s, n, &w)
+	return s.kill, err
+}
+
+// VerifC19SetKill presets the kill date of a Session made by VerifC19Waiter.
+func VerifC19SetKill(s *Session, k time.Time) { s.kill = k }
+
+// VerifC19KeepSettings: like VerifC19Wait but with the Session's current kill date.
+func VerifC19WaitKeepKill(s *Session, sleep time.Duration) (closing bool, pan interface{}) {
+	return VerifC19Wait(s, sleep, 0, s.kill, nil, false)
 }
